@@ -18,3 +18,6 @@ for _p in sorted(glob.glob(os.path.join(os.path.dirname(os.path.abspath(__file__
     if getattr(_m, 'ENABLED', True):
         PROPS[_id] = _m.CFG
         TEXT[_id] = _m.TEXT
+
+# properties whose check has been accepted by the main session (one id per line); MANIFEST.json and bin/setup use only these
+CLAIMED = [l.strip() for l in open(os.path.join(os.path.dirname(os.path.abspath(__file__)), 'claimed.txt')) if l.strip() and not l.startswith('#')]
